@@ -1317,6 +1317,27 @@ class Interp:
                 self.write(path, loc, concat(old, data))
                 self.event(path, "append", name, ce, args, site, blk, dest_ty, ctx, {"data": data, "target": loc})
                 return ("unit",)
+        if p == "alloc::vec::Vec::<T, A>::splice" and len(args) == 3 and is_ptr(a0) \
+                and re.search(r"::splice::<core::ops::range::Range<usize>, (\[u8; \d+\]|alloc::vec::Vec<u8>)>$", ce.get("full", "")):
+            # v.splice(k..k, bytes): pure insertion of the bytes at offset k (the removed range is empty); the returned
+            # iterator only matters for its drop
+            rng = args[1]
+            if isinstance(rng, tuple) and rng[0] == "agg" and rng[1].endswith("Range::Range") and len(rng[2]) == 2 \
+                    and rng[2][0] == rng[2][1] and rng[2][0][0] == "int":
+                k_ = rng[2][0][1]
+                loc = ("V", a0[1])
+                old = self.content(path, loc)
+                data = self.argval(path, args[2])
+                if isinstance(data, tuple) and data and data[0] == "vec":
+                    data = data[1]
+                if k_ == 0:
+                    new_ = concat(data, old)
+                else:
+                    new_ = concat(concat(slice_of(old, (0, 0), (k_, 0)), data), slice_of(old, (k_, 0), (0, 1)))
+                    self._need(path, loc, k_)
+                self.write(path, loc, new_)
+                self.event(path, "append", name, ce, args, site, blk, dest_ty, ctx, {"data": data, "target": loc, "at": k_})
+                return ("unit",)
         if p == "alloc::vec::Vec::<T, A>::truncate":
             loc = ("V", a0[1]) if is_ptr(a0) else None
             if loc and args[1][0] == "int":
@@ -1699,26 +1720,28 @@ class Interp:
         if isinstance(rng, tuple) and rng[0] == "agg":
             kind = rng[1]
             ops = rng[2]
-            def num(x):
-                return x[1] if isinstance(x, tuple) and x[0] == "int" else None
+            content_ = None
+            def bnd(x):
+                """A constant offset (k, 0), or `len(this buffer) - k` as (-k, 1); None when the bound is some other expression."""
+                nonlocal content_
+                if isinstance(x, tuple) and x and x[0] == "int":
+                    return (x[1], 0)
+                if content_ is None:
+                    content_ = self.content(path, loc)
+                if isinstance(x, tuple) and x and x[0] == "len" and same_buffer(x[1], content_):
+                    return (0, 1)
+                m = match_len_minus(x, content_)
+                return (-m, 1) if m is not None else None
             if kind.endswith("Range::Range") and len(ops) == 2:
-                lo, hi = num(ops[0]), num(ops[1])
-                if lo is not None and hi is not None:
-                    lo, hi = (lo, 0), (hi, 0)
-                else:
+                lo, hi = bnd(ops[0]), bnd(ops[1])
+                if lo is None or hi is None:
                     lo = hi = None
             elif kind.endswith("RangeTo::RangeTo"):
-                h = num(ops[0])
-                if h is not None:
-                    lo, hi = (0, 0), (h, 0)
-                else:
-                    lo, hi = (0, 0), ("sym", ops[0])
+                h = bnd(ops[0])
+                lo, hi = (0, 0), (h if h is not None else ("sym", ops[0]))
             elif kind.endswith("RangeFrom::RangeFrom"):
-                l = num(ops[0])
-                if l is not None:
-                    lo, hi = (l, 0), (0, 1)
-                else:
-                    lo, hi = ("sym", ops[0]), (0, 1)
+                l = bnd(ops[0])
+                lo, hi = (l if l is not None else ("sym", ops[0])), (0, 1)
             elif kind.endswith("RangeFull::RangeFull"):
                 lo, hi = (0, 0), (0, 1)
         ev = self.event(path, "index", name, ce, args, site, blk, dest_ty, ctx, {"target": loc, "lo": lo, "hi": hi, "range": rng})
